@@ -11,6 +11,12 @@ COMMON_TRUSTED = [
 #   pure   : a model/implementation disagreement is itself a concrete failing input, because the model is proved
 #            equal to the declarative spec of the property
 #   tie    : a disagreement breaks the correspondence; monitors search for a failing input
+MINT_ASSUME = [
+    "symbolic cryptography in the mint model: a C field is genuine iff it is the term CSig keyset amount secret (one-more unforgeability of BDHKE, collision resistance of hash_to_curve); the algebra itself is C10",
+    "each storage.MintDB call is atomic and durable once it returns (SQLite); PRIMARY KEY/UNIQUE as in the migrations",
+    "the Lightning backend is the scripted lightning.Client of the harness; real LND/CLN adapters are not executed",
+]
+
 PROPS = {
     'C12': dict(
         file='Props/C12.v',
@@ -36,7 +42,7 @@ PROPS = {
         ]),
     'C01': dict(
         file='Props/C01.v',
-        streams=[('c01-hist', 'tie')],
+        streams=[('c01-hist', 'tie'), ('c01-sched', 'tie')],
         assumptions=['symbolic cryptography in the mint model: a C field is genuine iff it is the term CSig keyset amount secret (one-more unforgeability of BDHKE, collision resistance of hash_to_curve); the algebra itself is C10', 'each storage.MintDB call is atomic and durable once it returns (SQLite); PRIMARY KEY/UNIQUE as in the migrations', 'the Lightning backend is the scripted lightning.Client of the harness; real LND/CLN adapters are not executed']),
     'C02': dict(
         file='Props/C02.v',
@@ -44,11 +50,11 @@ PROPS = {
         assumptions=['symbolic cryptography in the mint model: a C field is genuine iff it is the term CSig keyset amount secret (one-more unforgeability of BDHKE, collision resistance of hash_to_curve); the algebra itself is C10', 'each storage.MintDB call is atomic and durable once it returns (SQLite); PRIMARY KEY/UNIQUE as in the migrations', 'the Lightning backend is the scripted lightning.Client of the harness; real LND/CLN adapters are not executed']),
     'C03': dict(
         file='Props/C03.v',
-        streams=[('c03-hist', 'tie')],
+        streams=[('c03-hist', 'tie'), ('c03-sched', 'tie')],
         assumptions=['symbolic cryptography in the mint model: a C field is genuine iff it is the term CSig keyset amount secret (one-more unforgeability of BDHKE, collision resistance of hash_to_curve); the algebra itself is C10', 'each storage.MintDB call is atomic and durable once it returns (SQLite); PRIMARY KEY/UNIQUE as in the migrations', 'the Lightning backend is the scripted lightning.Client of the harness; real LND/CLN adapters are not executed']),
     'C05': dict(
         file='Props/C05.v',
-        streams=[('c05-hist', 'tie')],
+        streams=[('c05-hist', 'tie'), ('c05-scripts', 'tie')],
         assumptions=['symbolic cryptography in the mint model: a C field is genuine iff it is the term CSig keyset amount secret (one-more unforgeability of BDHKE, collision resistance of hash_to_curve); the algebra itself is C10', 'each storage.MintDB call is atomic and durable once it returns (SQLite); PRIMARY KEY/UNIQUE as in the migrations', 'the Lightning backend is the scripted lightning.Client of the harness; real LND/CLN adapters are not executed']),
     'C06': dict(
         file='Props/C06.v',
@@ -56,7 +62,7 @@ PROPS = {
         assumptions=['symbolic cryptography in the mint model: a C field is genuine iff it is the term CSig keyset amount secret (one-more unforgeability of BDHKE, collision resistance of hash_to_curve); the algebra itself is C10', 'each storage.MintDB call is atomic and durable once it returns (SQLite); PRIMARY KEY/UNIQUE as in the migrations', 'the Lightning backend is the scripted lightning.Client of the harness; real LND/CLN adapters are not executed']),
     'C09': dict(
         file='Props/C09.v',
-        streams=[('c09-hist', 'tie')],
+        streams=[('c09-hist', 'tie'), ('c09-keygen', 'pure')],
         assumptions=['symbolic cryptography in the mint model: a C field is genuine iff it is the term CSig keyset amount secret (one-more unforgeability of BDHKE, collision resistance of hash_to_curve); the algebra itself is C10', 'each storage.MintDB call is atomic and durable once it returns (SQLite); PRIMARY KEY/UNIQUE as in the migrations', 'the Lightning backend is the scripted lightning.Client of the harness; real LND/CLN adapters are not executed']),
     'C15': dict(
         file='Props/C15.v',
@@ -66,6 +72,36 @@ PROPS = {
         file='Props/C16.v',
         streams=[('c16-hist', 'tie')],
         assumptions=['symbolic cryptography in the mint model: a C field is genuine iff it is the term CSig keyset amount secret (one-more unforgeability of BDHKE, collision resistance of hash_to_curve); the algebra itself is C10', 'each storage.MintDB call is atomic and durable once it returns (SQLite); PRIMARY KEY/UNIQUE as in the migrations', 'the Lightning backend is the scripted lightning.Client of the harness; real LND/CLN adapters are not executed']),
+    'C04': dict(
+        file='Props/C04.v',
+        streams=[('c04-mut', 'tie')],
+        assumptions=MINT_ASSUME),
+    'C07': dict(
+        file='Props/C07.v',
+        streams=[('c07-cuts', 'tie')],
+        assumptions=MINT_ASSUME + ["a crash is modelled as the process stopping between two storage/Lightning calls; SQLite's own crash behaviour (torn pages, fsync) is assumed, not modelled"]),
+    'C10': dict(
+        file='Props/C10.v',
+        streams=[('c10-bdhke', 'pure')],
+        assumptions=[
+            "the theorems hold for every group_ops satisfying group_laws (abelian group of prime order q with the Z/q action); the laws are proved satisfiable (Z/101) but NOT proved for secp256k1 (classical mathematics, trusted)",
+            "HashE is an arbitrary function in the theorems; tamper theorems are stated as reductions to a HashE collision",
+            "the executable secp256k1 instance (Crypto/Secp256k1.v, BDHKEsecp.v) is tied to the Go code bit for bit by the correspondence stream",
+        ]),
+    'C11': dict(
+        file='Props/C11.v',
+        streams=[('c11-h2c', 'pure'), ('c11-keysetid', 'pure'), ('c11-nut13', 'pure'), ('c11-prims', 'pure')],
+        assumptions=[
+            "the equality theorems (implementation-shaped model = declarative spec) take SHA-256, HMAC-SHA512, lift_x and point serialisation as parameters; that the executable instances are those primitives rests on the bit-for-bit correspondence with the Go code and on the published test vectors",
+            "hdkeychain's BIP32 (a dependency, not repository code) is modelled from BIP32 and exercised for real by the harness",
+        ]),
+    'C18': dict(
+        file='Props/C18.v',
+        streams=[('c18-select', 'pure'), ('c18-send', 'pure')],
+        assumptions=[
+            "sort.Slice is unstable: soundness/exactness theorems are proved for any two permutation functions used as the sorts; the executable model uses a stable sort and the streams compare tie-break-invariant observables only",
+            "end-to-end stream: two real wallets against an in-process mint; the sender's store is filled with directly signed proofs",
+        ]),
 }
 
 
@@ -80,10 +116,15 @@ LEVEL_TEXT = {
     'C03': dict(text="Coq theorems on the mint-quote machine (issuance needs a paid/settled quote, at most the quoted amount, marks ISSUED, refused afterwards, NUT-20 signature required, the watcher only moves UNPAID->PAID); tied to /repo by differential execution incl. late notifications and tampered signatures", note=_MINT_NOTE),
     'C05': dict(text="Coq theorems characterising MeltTokens and the poll by the backend's answers (locked while possible, spent iff success with the backend's preimage, released only on failed/not-found, ambiguous answers are no-ops); tied to /repo by differential execution against scripted backends", note=_MINT_NOTE),
     'C06': dict(text="Coq theorems: a refused Swap/MintTokens/MeltTokens leaves the store unchanged (up to the lazily recorded payment of a settled quote) and no model program reaches a Panic leaf on the paths proved; tied to /repo by differential execution with rejection causes compared and a state-snapshot monitor on every refusal", note=_MINT_NOTE),
+    'C07': dict(text="Coq theorems that hold at EVERY crash cut and under EVERY injected storage error: key invariants of all tables, spent and signature tables append-only (spent stays refused, stored signatures stay restorable), footprints (no request but a rotation/restart touches keysets; swaps/checks never touch quotes; only issuing operations add signatures); the cuts at which the faithful model inflates or strands value are exhibited as computed witnesses (refutations of atomicity and of one safety clause) and replayed on the real mint; tied to /repo by running every operation kind with the process killed before each storage/Lightning call and with an error injected at each storage call, model and code agreeing on all of them", note=_MINT_NOTE + '; SQLite durability below call granularity assumed (partial)'),
     'C09': dict(text="Coq theorems on rotation and reload (one active keyset, index+1, old rows kept, signatures only on the active keyset, per-keyset fees) plus the bit-level keyset derivation of C11; tied to /repo by differential execution of restart/rotation histories", note=_MINT_NOTE),
     'C14': dict(text="Coq theorems: hex/base64 round trips, V3/V4 token round trip (modulo the marshaler contract), amount = sum, DecodeToken and all accessors total (no Panic leaf reachable); tied to /repo by differential execution of the real DecodeToken/NewToken/Serialize on generated tokens and arbitrary strings", note="encoding/json and cbor modelled by contract (exercised for real by the harness); see TRUSTED.md", design_ref="DESIGN.md §5 C14"),
     'C15': dict(text="Coq theorems: RestoreSignatures returns exactly the stored rows for the queried B_s in request order and finds every signature ever returned, after any history; ProofsStateCheck reports the table state of each Y in request order; spent stays SPENT; tied to /repo by differential execution with mixed known/unknown/repeated queries", note=_MINT_NOTE),
     'C16': dict(text="Coq theorems: the per-keyset views sum to the tables, TotalBalance = issued - redeemed without wrap under the stated bounds, each limit refuses as specified (incl. amounts >= 2^63 through the SQL driver rule), info.disabled iff balance >= max; tied to /repo by differential execution under limit configurations", note=_MINT_NOTE),
+    'C04': dict(text="Coq theorems: the per-proof gate accepts exactly the proofs with a known keyset, an amount that is a key of it, a secret within the length cap, a satisfied spending condition and C = the signature term for exactly (keyset, amount, secret); every accepted Swap input is such a proof; the algebraic half (verify k Y C <-> C = k.Y, another key never verifies) is C10; tied to /repo by presenting every single-field mutation of valid proofs to Swap and Melt", note=_MINT_NOTE),
+    'C10': dict(text="Coq theorems over an abstract prime-order group (BDHKE round trip, independence of r, wrong key/secret/point rejected, DLEQ completeness for mint and wallet, soundness with a unique challenge, single-field tamper theorems as hash-collision reductions), the same definitions instantiated at an executable secp256k1 and compared bit for bit with crypto/bdhke.go and nut12", note="group laws assumed for secp256k1 (not proved here); HashE arbitrary; see TRUSTED.md", design_ref="DESIGN.md §5 C10"),
+    'C11': dict(text="Coq theorems: implementation-shaped models of hash_to_curve, DeriveKeysetId and the NUT-13 derivation equal declarative specifications transcribed from NUT-00/02/13 and BIP32, for all inputs; executable SHA-256/HMAC-SHA512/secp256k1/BIP32 in Coq compared bit for bit with the Go functions", note="primitives identified with SHA-2/secp256k1 by correspondence and test vectors (partial); see TRUSTED.md", design_ref="DESIGN.md §5 C11"),
+    'C18': dict(text="Coq theorems on the wallet's selection arithmetic for every tie-break of the unstable sorts: AmountSplit sums, selection soundness, exact hand-over without fees, removal from the balance; the fee-inclusive exactness is characterised exactly (partial) and refuted with a computed witness that is replayed on two real wallets; liveness proved for active-keyset wallets and refuted otherwise; tied to /repo by differential execution of the selection helpers and end-to-end Send/Receive", note="sort.Slice tie-breaks quantified over; findings listed in known_findings.json", design_ref="DESIGN.md §5 C18"),
     'C12': _COND, 'C13': _COND,
 }
 NOT_APPLICABLE = {}
